@@ -337,7 +337,14 @@ func DisplayLine(l *Line, indent int) {
 
 		// Clear everything after each line, except the last.
 		if num < len(lines)-1 {
-			if len(line)+indent < term.GetWidth() {
+			endCol, rows := strutil.LineSpan([]rune(line), 0, indent)
+
+			// A line that exactly fills its last row leaves the cursor on
+			// the last cell: nothing to clear, and the next row stays empty,
+			// as the line coordinates are computed.
+			if endCol == 0 && rows > 0 {
+				line += term.NewlineReturn + term.ClearLineAfter
+			} else {
 				line += term.ClearLineAfter
 			}
 
